@@ -70,7 +70,7 @@ CHECKS = {
    note="no AArch64 execution here; silicon behaviour per the Arm ARM is trusted; decoder cross-checked against LLVM"),
  "C16": dict(engine="sim", level="exploration", ref="DESIGN.md §5 C16",
    technique="runtime monitoring of the real emitter in simulation: unmodified patch_arm.rs compiled on the host against a simulated memory; independent A32/T32 interpreters (Align(PC,4) literal rule, interworking BX); saved-bytes bookkeeping checked against the write made; llvm-mc cross-check",
-   text="For the three entry cases x boundary and random 32-bit addresses x both fake states the word the literal load reads is the fake's address (Thumb bit included), the BX interworks to it and the guard covers exactly the 12 written bytes; the A32 sequence writes only r12. The Thumb sequence writes callee-saved r7: listed in KNOWN_FINDINGS.txt (not repairable/testable without ARM hardware here).",
+   text="For the three entry cases x boundary and random 32-bit addresses x both fake states the word the literal load reads is the fake's address (Thumb bit included), the BX interworks to it and the guard covers exactly the 12 written bytes; both the A32 and the (repaired) Thumb sequence write only r12.",
    note="no ARM execution here; r9 treated as callee-saved per the Linux EABI"),
 }
 NOT_YET = {}
